@@ -12,6 +12,7 @@ Inductive c03case :=
 | Bin (op : binop) (a b : Z) (out : res Z)              (* TimeDelta op TimeDelta -> TimeDelta.ticks *)
 | FloorTD (a b : Z) (out : res Z)                       (* a // b -> int *)
 | DivmodTD (a b : Z) (out : res (Z * Z))                (* divmod(a, b) -> (int, ticks) *)
+| Recompose (a b : Z) (out : res Z)                     (* (a // b) * b + a % b -> ticks *)
 | MulInt (a n : Z) (rev : bool) (out : res Z)           (* a * n, n * a *)
 | FloorInt (a n : Z) (out : res Z)                      (* a // n -> TimeDelta *)
 | Un (op : unop) (a : Z) (out : res Z)
@@ -74,6 +75,8 @@ Definition c03_spec_ok (c : c03case) : bool :=
   | Bin op a b out => rz_eqb out (binop_fn op a b)
   | FloorTD a b out => rz_eqb out (spec_floordiv a b)
   | DivmodTD a b out => rzz_eqb out (do q <- spec_floordiv a b; do r <- spec_mod a b; Ok (q, r))
+  | Recompose a b out =>
+      rz_eqb out (do q <- spec_floordiv a b; do p <- spec_from_ticks (q * b); do r <- spec_mod a b; spec_from_ticks (p + r))
   | MulInt a n _ out => rz_eqb out (spec_from_ticks (a * n))
   | FloorInt a n out => rz_eqb out (if n =? 0 then Raise ZeroDivisionError else spec_from_ticks (a / n))
   | Un UNeg a out => rz_eqb out (spec_from_ticks (- a))
